@@ -1,35 +1,45 @@
 /-
-C17 line-protocol driver. Runs the *model* definitions `P3R.Cache.{fingerprint, step, run}` and
-`P3R.genPrep` on the cases written by `p3r-harness layers`.
+C17 line-protocol driver (tree with F10 / F10b repaired). Runs the *model* definitions
+`P3R.Cache.{fingerprint, fingerprintX, structureOf, step}` and `P3R.genPrep` on the cases written
+by `p3r-harness layers`. The key of a circuit is its extended fingerprint: the four counters and
+the structure digest; the model's digest of a program circuit is the structure itself (class
+id `sid` = first registered circuit with the same `structureOf`), i.e. the run assumes what
+`cache_refines_uncached_digest` assumes: no digest collision among the circuits of the run.
 
 Circuits are registered first, call histories refer to them by id.
 
   circ <cid> <field>          opens a builder program (the lines that follow are the builder
                               calls of `P3R.Driver.step`: pub / const v / add a b / mul a b / …)
   endcirc                     compiles the program with the model compiler and answers
-                                circ <cid> fp <wc> <pub> <priv> <ops> cls <c>
+                                circ <cid> fp <wc> <pub> <priv> <ops> cls <c> sid <s>
                               fp  = the model's `fingerprint` of the compiled circuit,
                               cls = id of the first registered program circuit with the same
                                     model preprocessed columns (`genPrep`: Const / Public indices,
                                     ALU rows) — the "same preparation data" class
+                              sid = id of the first registered program circuit with the same
+                                    `structureOf` (ops, public rows, private rows)
                               (`circ <cid> build-err` / `circ <cid> bad-op` otherwise)
   ext <cid> <wc> <pub> <priv> <ops> <cls>
                               registers a circuit that is too large to be given as a program
-                              (a real verification circuit): fingerprint and preparation class
-                              are taken from the line; answers `ext <cid>`
+                              (a real verification circuit): counters and preparation class
+                              are taken from the line, its structure class is its own id (the
+                              harness gives one id per distinct circuit); answers `ext <cid>`
   hist <step> …               one call sequence on initially empty cache variables; a step is
                                 agg:<cid>:<pid>:<slot|->      prove_aggregation_layer
                                 cross:<cid>:<pid>:<slot|->    prove_aggregation_layer_cross
                                 next:<cid>:<pid>:<cid'|->:<pid'|->   prove_next_layer, prep built
                                                                for job (cid', pid') or none
                               answers one line: `hist` then per step
-                                ` | <kind> hit=<0|1> used=<cls>.<pid> slot=<cls>.<pid>|- eq=<1|?K|?C>`
+                                ` | <kind> hit=<0|1> used=<cls>.<pid> slot=<cls>.<pid>|- eq=<1|?K>`
+                              or ` | next refused` (prove_next_layer handed a preparation whose
+                              fingerprint differs: `Err`, no proof)
                               used = job whose preparation the prover ran with (circuit given by
                               its class), slot = content of the named cache variable after the
                               call, eq=1: preparation class of the data used = class of the
                               current circuit (theorem `cache_refines_uncached_partial` ⇒ same
-                              outcome as uncached); eq=?K / ?C: hypothesis `KeyDeterminesPrep` /
-                              `CallerPrepsMatch` is falsified at this call, no prediction.
+                              outcome as uncached); eq=?K: `KeyDeterminesPrep` is falsified at this
+                              call (two circuits with one key and different preparation: a
+                              digest collision), no prediction.
 Unknown command, unknown circuit id, malformed token → `bad-op`. Nothing is defaulted.
 -/
 import P3R.Model.Cache
@@ -45,7 +55,9 @@ structure CircInfo where
   cid : Nat
   fp : Fingerprint
   cls : Nat
+  sid : Nat
   prep : Option PrepData   -- `none` for `ext` circuits (opaque)
+  struct : Option (Structure Nat)   -- field values erased to canonical naturals; `none` for `ext`
 
 structure St where
   circs : List CircInfo := []
@@ -85,9 +97,9 @@ def jobStr (st : St) (j : Job) : String :=
 /-- Run the model on one history, step by step (so the cache variable named by each step can
 be shown after it). Uses `P3R.Cache.step` itself. -/
 def runHist (st : St) (steps : List (String × Step Job)) : String :=
-  let key : Job → Option Fingerprint := fun j => (st.find j.1).map (·.fp)
+  let key : Job → Option (FingerprintX Nat) := fun j => (st.find j.1).map fun ci => ⟨ci.fp, ci.sid⟩
   let cls : Job → Option Nat := fun j => (st.find j.1).map (·.cls)
-  let rec go (s : Slots (Option Fingerprint) Job) (l : List (String × Step Job)) (acc : String) : String :=
+  let rec go (s : Slots (Option (FingerprintX Nat)) Job) (l : List (String × Step Job)) (acc : String) : String :=
     match l with
     | [] => acc
     | (kind, stp) :: rest =>
@@ -97,11 +109,11 @@ def runHist (st : St) (steps : List (String × Step Job)) : String :=
           | some e => jobStr st e.job
           | none => "-"
         | _ => "-"
-      let eq := if cls o.used == cls stp.job then "1"
-        else match stp with
-          | .agg _ _ => "?K"
-          | .next _ _ => "?C"
-      go s1 rest (acc ++ s!" | {kind} hit={if o.hit then 1 else 0} used={jobStr st o.used} slot={slotStr} eq={eq}")
+      match o.used with
+      | none => go s1 rest (acc ++ s!" | {kind} refused")
+      | some u =>
+        let eq := if cls u == cls stp.job then "1" else "?K"
+        go s1 rest (acc ++ s!" | {kind} hit={if o.hit then 1 else 0} used={jobStr st u} slot={slotStr} eq={eq}")
   go [] steps "hist"
 
 def stepJobs : Step Job → List Job
@@ -127,8 +139,20 @@ def handle (st : St) (line : String) : St × List String :=
         let cls := match st.circs.find? fun ci => ci.prep == some pd with
           | some ci => ci.cls
           | none => cid
-        ({ st' with circs := st.circs ++ [⟨cid, fp, cls, some pd⟩] },
-         [s!"circ {cid} fp {fp.witnessCount} {fp.publicFlatLen} {fp.privateFlatLen} {fp.opsLen} cls {cls}"])
+        -- the structure the digest is computed from, field values as canonical naturals
+        let eraseOp : Op (PF ds'.p) → Op Nat
+          | .const out v => .const out v.val
+          | .pub out pos => .pub out pos
+          | .alu k a b c out io => .alu k a b c out io
+          | .hint ins outs k => .hint ins outs k
+          | .npo ins outs id k => .npo ins outs id k
+        let sc := structureOf c
+        let str : Structure Nat := (sc.1.map eraseOp, sc.2.1, sc.2.2)
+        let sid := match st.circs.find? fun ci => ci.struct == some str with
+          | some ci => ci.sid
+          | none => cid
+        ({ st' with circs := st.circs ++ [⟨cid, fp, cls, sid, some pd, some str⟩] },
+         [s!"circ {cid} fp {fp.witnessCount} {fp.publicFlatLen} {fp.privateFlatLen} {fp.opsLen} cls {cls} sid {sid}"])
     | _ =>
       let (ds', outs) := Driver.step ds line
       ({ st with cur := some (cid, ds', bad || outs.contains "bad-op") }, [])
@@ -146,7 +170,7 @@ def handle (st : St) (line : String) : St × List String :=
       match cid.toNat?, a.toNat?, b.toNat?, c.toNat?, d.toNat?, cls.toNat? with
       | some cid, some a, some b, some c, some d, some cls =>
         if (st.find cid).isSome then (st, ["bad-op"]) else
-        ({ st with circs := st.circs ++ [⟨cid, ⟨a, b, c, d⟩, cls, none⟩] }, [s!"ext {cid}"])
+        ({ st with circs := st.circs ++ [⟨cid, ⟨a, b, c, d⟩, cls, cid, none, none⟩] }, [s!"ext {cid}"])
       | _, _, _, _, _, _ => (st, ["bad-op"])
     | "hist" :: toks =>
       match toks.mapM parseStep with
